@@ -35,6 +35,13 @@ Inductive verdict :=
 | SentIndet (a : addr) (ty : Z) (data : list (option Z)). (* one message, some data bytes never written *)
 Definition outcome := res verdict.
 
+Definition vtype (v : verdict) : option Z :=
+  match v with Rejected => None | Sent _ ty _ | SentIndet _ ty _ => Some ty end.
+Definition vaddr (v : verdict) : option addr :=
+  match v with Rejected => None | Sent a _ _ | SentIndet a _ _ => Some a end.
+Definition vlen (v : verdict) : option Z :=
+  match v with Rejected => None | Sent _ _ d => Some (Z.of_nat (length d)) | SentIndet _ _ d => Some (Z.of_nat (length d)) end.
+
 (* ---- caller buffers ---- *)
 Definition buf_get (k : nat) (b : list Z) (i : Z) : res Z :=
   if i <? 0 then Err (BufRead k i)
